@@ -312,7 +312,7 @@ const HINT_FAMILY: &[&str] = &[
     "(sunrise+01:00)-(sunset-00:30)", "Mo-Fr 10:00-12:00 \"a\", Sa 10:00-12:00 \"b\"", "10:00-12:00 open \"x\", 12:00-14:00 open \"y\"",
     "2021Nov-Feb", "2021Nov-Feb 10:00-12:00", "week 52-01", "Dec 31-Jan 1", "2024Feb", "Sa[5]", "2020-2024/2 Feb 29",
     "easter +1 day", "2022 easter-2022 Jun 1", "Jan 1-Dec 31", "week 1-53", "Mo-Su 00:00-24:00 || closed",
-    "24/7 ; Su 10:00-16:00", "24/7 unknown ; Dec 24 08:00-12:00 unknown", "24/7 ; Mo-Fr 10:00-12:00, Sa 10:00-11:00", "Mo closed ; Tu 10:00-12:00 closed",
+    "24/7 ; Su 10:00-16:00", "24/7 unknown ; Dec 24 08:00-12:00 unknown", "24/7 ; Mo-Fr 10:00-12:00, Sa 10:00-11:00",
     "2025 Feb 21-easter", "2030 Mar 1-2030 easter", "easter-2025 Jun 1", "2100 Dec 20-Jan 5", "2400 easter -2 days-2400 Jun 1",
     "2024 Feb 29", "9998-9999/2", "Dec 31 ; Jan 1 off", "Jan-Mar,Oct-Dec", "2019Sep01-Jul01:10:00-12:00",
 ];
@@ -652,7 +652,8 @@ pub fn record(args: &Args) {
 
             let ev = match res {
                 Some((ev, w)) => {
-                    work += w;
+                    // one very expensive event (a never-changing expression walked to year 9999) does not use up the whole budget
+                    work += w.min(work_budget / 20);
                     ev
                 }
                 None => {
